@@ -53,12 +53,65 @@ where
     Ok(out)
 }
 
-fn same_multiset(mut got: Vec<(u32, u32)>, want: &[(u32, u32)], what: &str) -> VResult<()> {
+pub fn same_multiset(mut got: Vec<(u32, u32)>, want: &[(u32, u32)], what: &str) -> VResult<()> {
     got.sort();
     if got != want {
         return Err(Viol::new("mismatch", format!("{}: yields {:?}, elements are {:?}", what, got, want)));
     }
     Ok(())
+}
+
+/// The provided `Iterator` methods a collection may override (`fold` - which `for_each`, `sum`, `max`,
+/// `extend(iter)` and `collect` into a collection go through - `count`, `last`, `nth`) must agree with
+/// element-wise `next()`: same multiset, same number, and the right remainder after `nth`.
+#[macro_export]
+macro_rules! provided {
+    ($mk:expr, $idf:expr, $want:expr, $name:expr) => {{
+        let want: &[(u32, u32)] = $want;
+        let n = want.len();
+        let got: Vec<(u32, u32)> = $mk.fold($crate::alloc::harness(|| Vec::with_capacity(n + 1)), |mut v, x| {
+            $crate::alloc::harness(|| v.push($idf(x)));
+            v
+        });
+        $crate::itercheck::same_multiset(got, want, &format!("{}.fold", $name))?;
+        let c = $mk.count();
+        if c != n {
+            $crate::vbail!("mismatch", "{}.count() = {}, the collection holds {}", $name, c, n);
+        }
+        let l = $mk.last().map($idf);
+        if l.is_some() != (n > 0) || l.map_or(false, |e| !want.contains(&e)) {
+            $crate::vbail!("mismatch", "{}.last() = {:?} with {} elements", $name, l, n);
+        }
+        for p in [0, n / 2, n.saturating_sub(1), n] {
+            let mut it = $mk;
+            let x = it.nth(p).map($idf);
+            if x.is_some() != (p < n) {
+                $crate::vbail!("mismatch", "{}.nth({}) = {:?} with {} elements", $name, p, x, n);
+            }
+            let rest = it.len();
+            if rest != n.saturating_sub(p + 1) {
+                $crate::vbail!("mismatch", "{}: len() = {} after nth({}) of {}", $name, rest, p, n);
+            }
+            let tail: Vec<(u32, u32)> = $crate::alloc::harness(|| it.map($idf).collect());
+            if tail.len() != rest || x.map_or(false, |e| tail.contains(&e) && want.iter().filter(|w| **w == e).count() == 1) {
+                $crate::vbail!("mismatch", "{}: after nth({}) = {:?} the rest is {:?}", $name, p, x, tail);
+            }
+        }
+        // a prefix by next(), the rest by fold
+        let mut it = $mk;
+        let mut all: Vec<(u32, u32)> = $crate::alloc::harness(|| Vec::with_capacity(n + 1));
+        for _ in 0..n / 2 {
+            match it.next() {
+                Some(x) => $crate::alloc::harness(|| all.push($idf(x))),
+                None => $crate::vbail!("mismatch", "{} ended early", $name),
+            }
+        }
+        let all = it.fold(all, |mut v, x| {
+            $crate::alloc::harness(|| v.push($idf(x)));
+            v
+        });
+        $crate::itercheck::same_multiset(all, want, &format!("{}: next() x{} then fold", $name, n / 2))?;
+    }};
 }
 
 pub fn map_iter_check<T: El>(w: &mut MapWorld<T>, arg: u64) -> VResult<()> {
@@ -74,6 +127,7 @@ pub fn map_iter_check<T: El>(w: &mut MapWorld<T>, arg: u64) -> VResult<()> {
     match kind {
         IK_ITER => {
             same_multiset(walk(m.iter().map(|(k, v)| (k.id(), v.id())), n, name)?, &want, name)?;
+            provided!(m.iter(), |(k, v): (&T, &T)| (k.id(), v.id()), &want, name);
             if !T::ZST {
                 // Debug of the iterators shows exactly what is still to come
                 let order: Vec<(u32, u32)> = m.iter().map(|(k, v)| (k.id(), v.id())).collect();
@@ -120,9 +174,13 @@ pub fn map_iter_check<T: El>(w: &mut MapWorld<T>, arg: u64) -> VResult<()> {
                 same_multiset(head, &want, "iter head+tail")?;
             }
         }
-        IK_ITER_MUT => same_multiset(walk(m.iter_mut().map(|(k, v)| (k.id(), v.id())), n, name)?, &want, name)?,
+        IK_ITER_MUT => {
+            same_multiset(walk(m.iter_mut().map(|(k, v)| (k.id(), v.id())), n, name)?, &want, name)?;
+            provided!(m.iter_mut(), |(k, v): (&T, &mut T)| (k.id(), v.id()), &want, name);
+        }
         IK_KEYS => {
             same_multiset(walk(m.keys().map(|k| (k.id(), 0)), n, name)?, &want_k, name)?;
+            provided!(m.keys(), |k: &T| (k.id(), 0), &want_k, name);
             let ps: Vec<usize> = if dense { (0..=n).collect() } else { vec![0, n / 2, n] };
             for p in ps {
                 let mut it = m.keys();
@@ -139,6 +197,7 @@ pub fn map_iter_check<T: El>(w: &mut MapWorld<T>, arg: u64) -> VResult<()> {
         }
         IK_VALUES => {
             same_multiset(walk(m.values().map(|v| (0, v.id())), n, name)?, &want_v, name)?;
+            provided!(m.values(), |v: &T| (0, v.id()), &want_v, name);
             let ps: Vec<usize> = if dense { (0..=n).collect() } else { vec![0, n / 2, n] };
             for p in ps {
                 let mut it = m.values();
@@ -153,9 +212,18 @@ pub fn map_iter_check<T: El>(w: &mut MapWorld<T>, arg: u64) -> VResult<()> {
                 }
             }
         }
-        IK_VALUES_MUT => same_multiset(walk(m.values_mut().map(|v| (0, v.id())), n, name)?, &want_v, name)?,
-        IK_REF_INTO => same_multiset(walk((&*m).into_iter().map(|(k, v)| (k.id(), v.id())), n, name)?, &want, name)?,
-        IK_MUT_INTO => same_multiset(walk((&mut *m).into_iter().map(|(k, v)| (k.id(), v.id())), n, name)?, &want, name)?,
+        IK_VALUES_MUT => {
+            same_multiset(walk(m.values_mut().map(|v| (0, v.id())), n, name)?, &want_v, name)?;
+            provided!(m.values_mut(), |v: &mut T| (0, v.id()), &want_v, name);
+        }
+        IK_REF_INTO => {
+            same_multiset(walk((&*m).into_iter().map(|(k, v)| (k.id(), v.id())), n, name)?, &want, name)?;
+            provided!((&*m).into_iter(), |(k, v): (&T, &T)| (k.id(), v.id()), &want, name);
+        }
+        IK_MUT_INTO => {
+            same_multiset(walk((&mut *m).into_iter().map(|(k, v)| (k.id(), v.id())), n, name)?, &want, name)?;
+            provided!((&mut *m).into_iter(), |(k, v): (&T, &mut T)| (k.id(), v.id()), &want, name);
+        }
         _ => {
             // keys() and values() enumerate in the same order as iter()
             let ks = walk(m.keys().map(|k| k.id()), n, "keys")?;
